@@ -394,6 +394,15 @@ class Ex:
         if isinstance(v, VBox):
             if v.kind in ("list",):
                 return v.val.length() > 0
+            if v.kind == "dict":
+                from vf.pyvc.values import DictVal
+                if v.val is None:
+                    return z3.BoolVal(False)
+                if isinstance(v.val, DictVal):
+                    # non-empty iff the key set is not the empty set (extensional array equality)
+                    return z3.Not(v.val.keys == z3.K(v.val.keys.sort().domain(), z3.BoolVal(False)))
+                if isinstance(v.val, dict):
+                    return z3.BoolVal(len(v.val) > 0)
             if v.kind in ("dict", "set"):
                 return self.world.speclib.container_len(self, v) > 0
             return z3.BoolVal(True)
